@@ -22,6 +22,10 @@ CHECKS.update({
 CHECKS["C14"] = dict(cat="model_checking", tech="TLC model checking of IterPool.tla (lock/channel discipline, deadlock freedom) and Serve.tla + randomised stress of the real code under the Go race detector and a watchdog + ServeObs trace validation",
     text="The lock and channel discipline of the iterator pool and of reload/serve is model-checked for deadlock freedom and lockset discipline; the real code is stressed (query workers x partial/full reloads x stats reporter x shutdown) on the instrumented backend and on real CDB / RocksDB v1 / v2 under the race detector, plus a hot (maximum-throughput) stress that counts touches of a closed backend; verdict = race reports, hangs, crashes.",
     note="The race detector and the stress only see executed schedules: absence of a report is not a proof; bounded models (2-3 getters, pool of 2-3).", ref="5.6")
+SEM_NOTE = "Bounded model; conformance is sampling of executions steered by the exhaustive enumeration of model states; the oracle (Resolve.tla / Lpm.tla) is written from the data-format documentation and the property text, not from the server code; trusts TLC, miekg/dns as message codec and the harness' normalisation of responses (self-test: a corrupted field must be rejected)."
+CHECKS["C03"] = dict(cat="model_checking", tech="TLC model checking of LpmImpl.tla (rearranger range points + predecessor search, CDB prefix-length sets vs longest-prefix match on toy address spaces) + TLC-enumerated subnet sets embedded in the real address space and run through the real compilers/readers + TLC trace validation of every lookup against Lpm.tla (ResolveTrace)",
+    text="Both lookup algorithms are model-checked equal to longest-prefix match for every set of <=3-4 subnets and every client prefix on three toy spaces in which a block plays the IPv4-mapped range; every enumerated set (plus name-to-map layouts and random realistic sets) is compiled with the real compilers and looked up through the real readers on CDB (combined and per-family sets) and RocksDB v1/v2, resolver and ECS paths, and TLC judges each observed (location, mask, map) against the property-level LPM on the real addresses.",
+    note=SEM_NOTE + " Toy spaces of 4-5 address bits; IPv6 subnets containing the IPv4-mapped block are a labelled class (known finding F3b).", ref="4.4")
 NA = {}
 props = [json.loads(l)["id"] for l in open(os.path.join(V, "properties.jsonl"))]
 m = {
